@@ -3,13 +3,18 @@ import os
 import subprocess
 
 KEY = "pending-gap-after-partial-reinject"
-KNOWN = [{
-    "property": "C20", "status": "open", "key": KEY,
-    "text": "pending list keeps a nonce gap after a reorg that re-injects only part of the dropped transactions "
-            "(demoteUnexecutables only tests the very front): witness corpus/C20/w1_gap_after_partial_reinject.json, "
-            "repair fixes/C20_pending_gap_after_partial_reinject.diff",
-    "witness": ["corpus/C20/w1_gap_after_partial_reinject.json"],
-}]
+# Findings of this property (both repaired in /repo; the witnesses stay in the
+# corpus / in the lock table, so a regression is reported as a VIOLATION again).
+FINDINGS = [
+    {"property": "C20", "status": "fixed: c78f52f", "key": KEY,
+     "text": "pending list kept a nonce gap after a reorg that re-injects only part of the dropped transactions "
+             "(demoteUnexecutables only tested the very front)",
+     "witness": ["corpus/C20/w1_gap_after_partial_reinject.json"],
+     "notes": "fixes/C20_pending_gap_after_partial_reinject.md"},
+    {"property": "C20", "status": "fixed: 94b8c45", "key": "transactions-number-unlocked",
+     "text": "exported TransactionsNumber read the pending/queue maps without pool.mu (latent data race, no caller)",
+     "notes": "fixes/C20_transactions_number_unlocked.md"},
+]
 
 
 def race_run(seed, millis):
@@ -38,22 +43,10 @@ def race_run(seed, millis):
 
 
 def check(pid, tier, seed):
-    """standard_check, with (a) the C20 finding listed here until it is moved to
-    /verif/known_findings.json (builders do not edit shared files) and (b) in the
-    thorough tier the -race run of the concurrent workload."""
+    """standard_check plus, in the thorough tier, the -race run of the
+    concurrent workload (a detected race or a final-state oracle hit fails the check)."""
     import vf
-    orig = vf.load_known
-
-    def load_known(p):
-        ks = orig(p)
-        if p == "C20" and not [k for k in ks if k.get("key") == KEY]:
-            ks = ks + KNOWN
-        return ks
-    vf.load_known = load_known
-    try:
-        rc = vf.standard_check(pid, tier, seed)
-    finally:
-        vf.load_known = orig
+    rc = vf.standard_check(pid, tier, seed)
     if tier == "thorough":
         rr = race_run(seed, 8000)
         evp = os.path.join(vf.VERIF, "evidence", pid + ".json")
@@ -81,10 +74,11 @@ SPEC = {
                   "and queued views, every transaction filed under its sender, one nonce per account names at most one "
                   "pooled transaction, none is both pending and queued; every pooled transaction is not stale, affordable and "
                   "within the gas limit of the current head; Pending() returns exactly the pending view in nonce order. "
-                  "The clause 'pending is gap-free from the account nonce' is REFUTED for the code as it is (theorem + replayable "
-                  "witness, listed finding with a 15-line repair that the model also carries); gap-freeness, queued-above-pending "
-                  "and soundness of the pool nonce are proved for every history outside the finding (ghost flag of the one code "
-                  "location) and unconditionally for the repaired code. The model is a hand-written mirror of tx_pool.go/tx_list.go/"
+                  "The clause 'pending is gap-free from the account nonce' was REFUTED for the code before commit c78f52f (theorem + "
+                  "replayable witness; the 15-line repair found here is now in /repo and is the model's gapfix branch, selected "
+                  "per run by the harness); gap-freeness, queued-above-pending and soundness of the pool nonce are proved "
+                  "unconditionally for the repaired code and, for the old code, for every history outside the finding (ghost flag "
+                  "of the one code location). The model is a hand-written mirror of tx_pool.go/tx_list.go/"
                   "tx_noncer.go, compared with the real pool after every critical section of thousands of random histories "
                   "inside Coq; the lock discipline is checked on a method table regenerated from the source.",
     "level_note": "Trusted: Coq kernel + vm_compute; fidelity of the hand model rests on the differential check "
@@ -112,6 +106,7 @@ SPEC = {
     "gen_args": [],
     "allowed_axioms": [],
     "finding_key": lambda h: h.get("what"),
+    "findings": FINDINGS,
     "trusted_base": [
         "Coq 8.16.1 kernel (vm_compute for the lock table, the witnesses and the in-Coq model runs; no native_compute)",
         "no axioms: every obligation is Closed under the global context",
@@ -128,8 +123,8 @@ SPEC = {
         "nonces, gas and prices stay below 2^64 (uint64 wrap-around is not modelled; N is unbounded)",
         "the price heap is represented by its meaning (price order over the lookup); its stale counter is checked only by the harness oracle",
         "journal, event feed, metrics, NewTxPool's config sanitising and the wall clock (Lifetime test) are outside the model",
-        "every access to the pool's shared fields happens inside a pool.mu critical section (checked on the regenerated method table, "
-        "with the listed latent exception TransactionsNumber) - under it concurrent executions are interleavings of the model's ops",
+        "every access to the pool's shared fields happens inside a pool.mu critical section (checked on the regenerated method table) "
+        "- under it concurrent executions are interleavings of the model's ops",
         "reset with an unknown *new* head inside the reorg-walk range dereferences nil in Go; the harness never does this",
     ],
     "modelled": ["core.(*TxPool).add", "addTxsLocked", "validateTx", "enqueueTx", "promoteTx", "promoteExecutables",
